@@ -27,7 +27,7 @@ class Sim:
         self.n = 0
         self.wall = 0.0
 
-    def run(self, spec: dict, mapseed: int = 1, timeout: float = 120.0, tag: str = "") -> dict:
+    def run(self, spec: dict, mapseed: int = 1, timeout: float = 120.0, tag: str = "", gomaxprocs: int = 1) -> dict:
         """Execute one simulated process.  Returns the result record; a dead process is reported as
         {"status": "process_died", "rc": ..., "stderr_tail": ...} (it may be the system under test
         that died: zerolog's Fatal calls the real os.Exit; a Go panic in a goroutine exits 2)."""
@@ -36,7 +36,7 @@ class Sim:
         sp, op = base + ".spec.json", base + ".out.json"
         with open(sp, "w") as f:
             json.dump(spec, f)
-        env = dict(os.environ, VERIF_SPEC=sp, VERIF_OUT=op, VERIF_MAPSEED=str(mapseed), GOMAXPROCS="1", GOGC="off")
+        env = dict(os.environ, VERIF_SPEC=sp, VERIF_OUT=op, VERIF_MAPSEED=str(mapseed), GOMAXPROCS=str(gomaxprocs), GOGC="off")
         t0 = time.time()
         try:
             p = subprocess.run([self.bin, "-test.run", "^TestVerifSim$", "-test.timeout", "0"], env=env,
